@@ -139,8 +139,9 @@ def run(rep, rng, tier):
         dt = gens.dyadic_dt(rng, 1, 8) if dyadic else rng.choice([0.01, 0.005, 0.02])
         tol = 0 if dyadic else 1e-12 * len(a) * dt
         if rng.random() < 0.6:
-            lo_k = rng.randint(1, 14)
-            lo, hi = lo_k / 16.0, rng.randint(lo_k + 1, 15) / 16.0
+            # 0 and 16: the explicit fractions 0.0 and 1.0 (first sample above zero, last below the total), one case in six each
+            lo_k = 0 if rng.random() < 1 / 6 else rng.randint(1, 14)
+            lo, hi = lo_k / 16.0, (16 if rng.random() < 1 / 6 else rng.randint(lo_k + 1, 15)) / 16.0
         else:
             lo, hi = 0.05, 0.95
         # --- array variant
